@@ -524,6 +524,24 @@ def r05_10(run):
     run.count("index classifiers", n)
 
 
+def r05_11(run):
+    """object identities of operands are not frozen in the forward pass.  An in-place update re-routes every recorded op through placeholder
+    tensors (reroute_ops_through swaps the entries of op.variables): state keyed on id(<operand>) that was computed in __call__ refers to
+    tensors the op no longer holds, so backward looks up the wrong entry (EinSum's repeated-operand cache is built lazily for this reason)."""
+    n = 0
+    for c in run.project.concrete_ops():
+        for mname, m in c.methods.items():
+            ids = [x for x in own_nodes(m.node) if isinstance(x, ast.Call) and isinstance(x.func, ast.Name) and x.func.id == "id" and x.args]
+            for x in ids:
+                n += 1
+                fwd = mname in ("__call__", "__init__")
+                run.ob("R05.11", loc(m, x), m.short, f"`{norm(x)[:40]}` is evaluated at backward time", not fwd,
+                       "identity read from the op's current variables when it is needed" if not fwd else
+                       "an operand's id() is recorded during the forward pass: after an in-place update the op's variables are placeholders with other "
+                       "ids, and the recorded key no longer matches (an earlier op sends a wrong share of its gradient to the pre-mutation tensor)")
+    run.count("id() uses in op methods", n)
+
+
 def check(run):
     run.rule("R05.1", "the tracked in-place kernel writes into a private copy of the base (def-use chain to graph.base.tensor.copy()), made after "
              "the graph duplication; operands are placeholders", floor=4)
@@ -545,5 +563,7 @@ def check(run):
     run.rule("R05.9", "routing ops (SetItem, UnView, ApplyMask) and the ufunc where-mask drop excluded entries by assignment/selection, never by "
              "scaling with a 0/1 mask (0 * nan = nan leaks a non-finite gradient into overwritten / masked-out contents)", floor=4)
     run.do(r05_9)
+    run.rule("R05.11", "ops never freeze id(<operand>) in their forward pass (placeholder re-routing replaces op.variables)", floor=1)
+    run.do(r05_11)
     run.rule("R05.10", "index classifiers decide from the converted element (dtype kind, ndim), not from its Python type", floor=2)
     run.do(r05_10)
